@@ -559,6 +559,7 @@ class MarkovNetwork(UndirectedGraph):
         # (indexed by position: factors compare/hash by value, equal factors must each be used)
         is_used = [False] * len(self.factors)
 
+        state_names = self.states
         for node in clique_trees.nodes():
             clique_factors = []
             for index, factor in enumerate(self.factors):
@@ -572,7 +573,12 @@ class MarkovNetwork(UndirectedGraph):
             # To compute clique potential, initially set it as unity factor
             var_card = [self.get_cardinality()[x] for x in node]
             clique_potential = DiscreteFactor(
-                node, var_card, np.ones(np.prod(var_card))
+                node,
+                var_card,
+                np.ones(np.prod(var_card)),
+                state_names={
+                    var: state_names[var] for var in node if var in state_names
+                },
             )
             # multiply it with the factors associated with the variables present
             # in the clique (or node)
